@@ -55,8 +55,14 @@ def gen_case(rng, i, max_m=8):
         J = J * 10.0 ** k / s
     name = "UPGrad" if rng.random() < 0.5 else "DualProj"
     agg = {"name": name, "pref": pref_vector(rng, m), "norm_eps": ne, "reg_eps": re}
-    if agg["pref"] is not None and rng.random() < 0.25:
-        agg["pref_dtype"] = "float32" if dname == "float64" else "float64"  # preference vector in another dtype than the matrix
+    if agg["pref"] is not None and rng.random() < 0.3:
+        if rng.random() < 0.3:
+            agg["pref"] = [float(x) for x in rng.integers(0, 6, size=m)]  # an integer-typed preference vector, e.g. torch.tensor([1, 2, 3])
+            if not any(agg["pref"]):
+                agg["pref"][0] = 1.0
+            agg["pref_dtype"] = "int64"
+        else:
+            agg["pref_dtype"] = "float32" if dname == "float64" else "float64"  # preference vector in another dtype than the matrix
     case = {"J": J.tolist(), "class": klass, "dtype": dname, "agg": agg}
     if rng.random() < 0.3:
         # the same aggregator INSTANCE is then applied to further matrices (same number of rows): every call must be right
